@@ -343,6 +343,17 @@ def run(ctx):
             if not o["ok"] or nqn < 16:
                 ctx.violation({"kind": "driver-pipeline-statement", "op": "run", "operand": ""}, "driver run on %s did not complete its quasi-neutrality pipeline (%d statements): %s" % (
                     g, nqn, o["fault"][:300]), {"nprocs": g})
+        # the potential the DRIVER computes equals the mode-by-mode solution of the stated equation: its own solver object against
+        # a second one that differs only in a much finer quadrature, on the modes the driver hands over (12 radial points)
+        cf3 = scenarios.write_constants(os.path.join(work2, "c3.json"), eps=0.05, npts=[12, 8, 8, 8], iotaVal=0.8)
+        o3 = drv05({"work": os.path.join(work2, "w3"), "cfile": cf3, "S": 5, "nprocs": [1, 1], "tEnd": 0, "folder": "F", "policy": "asc", "seed": 0,
+                    "eager": False}, VERIF_QNREF="1")
+        ctx.count(("driver-potential-vs-fine-quadrature",))
+        qd = o3.get("qn_quadrature_dev")
+        if not (o3["ok"] and qd and qd[1] > 0 and qd[0] <= 2e-4 * qd[1]):
+            ctx.violation({"kind": "driver-potential", "what": "quadrature"},
+                          "the potential the driver computes from its density modes deviates by %s (absolute, largest value) from the mode-by-mode solution "
+                          "with a fine quadrature (unmodified code: relative 3e-6) %s" % (qd, o3["fault"][:200]), {"dev": qd})
     finally:
         shutil.rmtree(work2, ignore_errors=True)
     rej, _ = ctx.validate_trace("C15Trace", events, what="pipeline / relation / equilibrium events (%d)" % len(events))
